@@ -70,8 +70,21 @@ def c06():
     return out
 
 
+def _wide_shuffled():
+    """One data frame handed over unsorted (create_cooler sorts it) with narrow (int32) ids over a
+    large bin table: a packed (bin1 * n_bins + bin2) sort key computed in 32 bits wraps beyond
+    46 340 bins."""
+    import random as _r
+    big = lay(["L"], "uniform:50000:1")
+    px = [(46341 + 7 * k, 46341 + 7 * k + (k % 5), 1 + k % 3) for k in range(60)] + \
+         [(k * 811, k * 811 + 3, 2) for k in range(40)]
+    _r.Random(11).shuffle(px)
+    return [create("f0", "/w", big, px, form="df", id_dtype="int32")]
+
+
 def c01():
     return [
+        _wide_shuffled(),
         # a small chunk followed by a chunk larger than any plausible write-buffer threshold
         # (65 536 rows), then small ones again: order and offsets across buffering boundaries
         [{"op": "bigcreate", "file": "f0", "path": "/big", "nbins": [300, 200], "splits": [0.0001, 0.0001, 0.7, 0.7001]}],
@@ -227,7 +240,12 @@ def c02(tier="quick"):
     # > 1e6 pixels: the real 1_000_000-row block boundary of index_pixels (knob off; an index builder
     # that no longer goes through rlencode is not reached by the knob). Cheap enough (2-3 s) for the
     # quick tier; the thorough tier adds a second size whose boundary falls elsewhere.
-    big = [[{"op": "bigcreate", "file": "f0", "path": "/", "nbins": [1000, 500], "splits": [0.3, 0.3, 0.9]}]]
+    # an I/O error surfaces when the second chunk is flushed: the creation may fail, it must not
+    # report success over a table that holds a chunk twice
+    f10 = [create("f0", "/a", L_FIXED, PX5, chunks=[3, 2, 2], form="iter", fault={"kind": "F10", "flush": k})
+           for k in (0, 1, 2)]
+    big = [[{"op": "bigcreate", "file": "f0", "path": "/", "nbins": [1000, 500], "splits": [0.3, 0.3, 0.9]}],
+           _wide_shuffled(), f10]
     if tier == "thorough":
         big.append([{"op": "bigcreate", "file": "f0", "path": "/b", "nbins": [700, 900, 450], "splits": [0.5]}])
     return big
